@@ -3,14 +3,15 @@ C09 — system simulations are transparent: nesting does not change behaviour.
 (whole-simulation model `tickLevel` with nested schedulers at any depth vs the same model run
 on the mechanically flattened configuration)
 -/
-import TickitModel.Lemmas.FlattenLemmas
+import TickitModel.Lemmas.FlattenMain
+import TickitModel.Lemmas.FlattenCex
 
 namespace Tickit
 
 /-- the flattening is a flat, structurally valid configuration with the same devices -/
 theorem flatten_devices (S : Static) (fuel : Nat) (c : Comp) :
     c ∈ (S.flatten fuel).devices ↔ c ∈ S.devices := by
-  sorry
+  rw [S.flatten_devices_eq]
 
 /-- the boundary bookkeeping of one nested tick: what a system component answers upward is
 exactly what its `expose` mock component was given, and what its `external` mock component
@@ -18,30 +19,35 @@ answers is exactly what the system component was given — within the same tick.
 theorem external_passes_inputs (S : Static) (orc : Oracle) (fuel : Nat) (L : Level) (inCh : List (Port × V))
     (st : SimSt) (out0 : List (Port × V)) (t : SimTime) (ins : List (Port × V)) (hL : L.name ≠ "") :
     simAnswer S orc fuel L inCh st out0 (.input pseudoExternal t ins) = .ok (st, out0, inCh, none) := by
-  sorry
+  simp [simAnswer, hL]
 
 theorem expose_collects_outputs (S : Static) (orc : Oracle) (fuel : Nat) (L : Level) (inCh : List (Port × V))
     (st : SimSt) (out0 : List (Port × V)) (t : SimTime) (ins : List (Port × V)) (hL : L.name ≠ "")
     (hne : pseudoExpose ≠ pseudoExternal) :
     simAnswer S orc fuel L inCh st out0 (.input pseudoExpose t ins) = .ok (st, ins, [], none) := by
-  sorry
+  simp [simAnswer, hL, hne]
 
 /-- **C09, initial tick.**  If the initial tick of the nested configuration completes, so does
 the initial tick of its flattening (given enough fuel), and every device makes exactly the same
 observation — same time, same inputs as a mapping — in both: values cross system boundaries, in
-both directions and through pass-through ports, within that one tick. -/
+both directions and through pass-through ports, within that one tick.
+
+The resolution fuel `rfuel` of the flattening has to be *sufficient*: `S.ResolveStable rfuel`
+says one more unit of fuel changes no resolved source.  (The earlier hypothesis
+`S.levels.length ≤ rfuel` is not enough: a chain of pass-through systems needs two steps per
+system, see `Lemmas/FlattenCex.lean` for a counterexample checked at build time.) -/
 theorem nesting_transparent_initial (S : Static) (hS : S.Valid) (orc : Oracle) (fuel rfuel : Nat)
-    (hr : S.levels.length ≤ rfuel) (t0 : SimTime) (now : Int)
+    (hr : S.ResolveStable rfuel) (t0 : SimTime) (now : Int)
     (m : MasterSt) (tr : TickRec) (h : masterInitial S orc fuel t0 now = .ok (m, tr)) :
     ∃ fuel' m' tr', masterInitial (S.flatten rfuel) orc fuel' t0 now = .ok (m', tr') ∧
-      ∀ d, ObsEq (m.sim.obsOf d) (m'.sim.obsOf d) := by
-  sorry
+      ∀ d, ObsEq (m.sim.obsOf d) (m'.sim.obsOf d) :=
+  nesting_transparent_initial_core S hS orc fuel rfuel hr t0 now m tr h
 
 /-- **C09, whole run (callbacks).**  Continuing both simulations for the same number of callback
 ticks (no external stimuli), the tick times coincide and every device keeps making the same
 observations: callbacks requested inside a system are served at exactly the requested time. -/
 theorem nesting_transparent_run (S : Static) (hS : S.Valid) (orc : Oracle) (fuel rfuel : Nat)
-    (hr : S.levels.length ≤ rfuel) (t0 : SimTime) (now : Int) (sp : Speed) (steps nTicks : Nat)
+    (hr : S.ResolveStable rfuel) (t0 : SimTime) (now : Int) (sp : Speed) (steps nTicks : Nat)
     (m m2 : MasterSt) (tr : TickRec) (ticks : List TickRec)
     (h : masterInitial S orc fuel t0 now = .ok (m, tr))
     (h2 : masterRun S orc fuel sp steps nTicks m [] [tr] = .ok (m2, ticks)) :
